@@ -386,6 +386,9 @@ def gen_static(g, depth, ptypes=None, out=None, budget=None, kw_ok=False, ret_fr
     nst = rng.randint(1, P["max_stmts"])
     stmts = []
     used = set()
+    # visit order must not coincide with alphabetical order: JAX rebuilds dicts
+    # (StaticTrace.subtraces) with sorted keys at every pytree boundary
+    letters = rng.sample("abcdxyzw", 8)
     group = g.fresh("g")
     for j in range(nst):
         if budget <= 0:
@@ -412,7 +415,7 @@ def gen_static(g, depth, ptypes=None, out=None, budget=None, kw_ok=False, ret_fr
             st["kw"] = {n: synth(g, env, t) for n, t in sorted(callee["kwp"].items())}
         else:
             st["args"] = [synth(g, env, t) for t in ins]
-        base = "abcdxyzw"[j % 8]
+        base = letters[j % 8]
         if callee["k"] == "dist":
             name = base + LEAF_CODE[callee["d"]] + str(callee.get("n", ""))
         else:
